@@ -113,3 +113,56 @@ Proof.
   replace (len level + 2) with (len (level ++ [SP]) + 1) by (rewrite len_app; change (len [SP]) with 1; lia).
   rewrite slice_from_app_cons. reflexivity.
 Qed.
+
+(* ---- the in-place construction of the time field ---------------------------------------------- *)
+Lemma split_at {A} (l : list A) : forall n x, nth_error l n = Some x -> l = firstn n l ++ x :: skipn (S n) l.
+Proof.
+  induction l as [|y l IH]; intros [|n] x H; cbn in H; try discriminate.
+  - injection H as <-. reflexivity.
+  - cbn [firstn skipn app]. f_equal. apply IH. exact H.
+Qed.
+
+(* data[:pos] ++ data[pos] :: data[pos+1:] = data *)
+Lemma split_at_index_byte l c a b :
+  0 <= index_byte l c ->
+  slice_to l (index_byte l c) = Ok a -> slice_from l (index_byte l c + 1) = Ok b -> l = a ++ c :: b.
+Proof.
+  intros Hp Ha Hb. pose proof (index_byte_hit l c Hp) as Hc. apply idx_inv in Hc. destruct Hc as [Hr Hn].
+  apply slice_inv in Ha. destruct Ha as (_ & _ & _ & ->).
+  apply slice_inv in Hb. destruct Hb as (_ & _ & _ & ->).
+  cbn [Z.to_nat skipn]. rewrite Z.sub_0_r.
+  replace (Z.to_nat (index_byte l c + 1)) with (S (Z.to_nat (index_byte l c))) by lia.
+  rewrite (firstn_all2 (n := Z.to_nat (len l - (index_byte l c + 1)))).
+  2:{ rewrite skipn_length. unfold len. lia. }
+  apply split_at. exact Hn.
+Qed.
+
+(* the time field is a prefix of the input: Go builds it by appending onto data[:pos] in place, which
+   therefore rewrites every byte of the caller's buffer with the value it already has *)
+Theorem decode_postgres_time_in_place : forall data row,
+  decode_postgres data = Ok row -> exists rest, data = pg_time row ++ SP :: rest.
+Proof.
+  intros data row. unfold decode_postgres.
+  destruct (index_byte data SP <? 0) eqn:Hp; [discriminate|].
+  destruct (slice_to data (index_byte data SP)) as [t1| |] eqn:E1; cbn [bind]; try discriminate.
+  destruct (slice_from data (index_byte data SP + 1)) as [d1| |] eqn:E1'; cbn [bind]; try discriminate.
+  destruct (index_byte d1 SP <? 0) eqn:Hp2; [discriminate|].
+  destruct (slice_to d1 (index_byte d1 SP)) as [t2| |] eqn:E2; cbn [bind]; try discriminate.
+  destruct (slice_from d1 (index_byte d1 SP + 1)) as [d2| |] eqn:E2'; cbn [bind]; try discriminate.
+  destruct (index_byte d2 SP <? 0) eqn:Hp3; [discriminate|].
+  destruct (slice_to d2 (index_byte d2 SP)) as [t3| |] eqn:E3; cbn [bind]; try discriminate.
+  destruct (slice_from d2 (index_byte d2 SP + 1)) as [d3| |] eqn:E3'; cbn [bind]; try discriminate.
+  pose proof (split_at_index_byte data SP t1 d1 ltac:(lia) E1 E1') as S1.
+  pose proof (split_at_index_byte d1 SP t2 d2 ltac:(lia) E2 E2') as S2.
+  pose proof (split_at_index_byte d2 SP t3 d3 ltac:(lia) E3 E3') as S3.
+  intros H. exists d3.
+  assert (Ht : pg_time row = t1 ++ SP :: t2 ++ SP :: t3).
+  { revert H. clear.
+    repeat match goal with
+           | |- context [if ?c then _ else _] => destruct c; try discriminate
+           | |- context [bind ?r _] => destruct r as [?| |]; cbn [bind]; try discriminate
+           | |- context [let '(_, _) := ?p in _] => destruct p
+           end.
+    intros H. injection H as <-. reflexivity. }
+  rewrite Ht, S1, S2, S3. rewrite <- !app_assoc. cbn [app]. rewrite <- !app_assoc. reflexivity.
+Qed.
